@@ -102,8 +102,20 @@ func RunOpAPI(r OpReq) (Outcome, []InputMutation) {
 	for i, t := range ins {
 		before[i] = Fp(t)
 	}
+	o := runOpOn(r, ins)
+	var muts []InputMutation
+	for i, t := range ins {
+		if ok, what := before[i].Equal(Fp(t)); !ok {
+			muts = append(muts, InputMutation{Index: i, What: what})
+		}
+	}
+	return o, muts
+}
+
+// runOpOn executes the request through the operator API on the given tensor objects.
+func runOpOn(r OpReq, ins []tensor.Tensor) Outcome {
 	phase := "lookup"
-	o := Capture(&phase, func() ([]tensor.Tensor, error) {
+	return Capture(&phase, func() ([]tensor.Tensor, error) {
 		op, err := opset13.GetOperator(r.Op)
 		if err != nil {
 			return nil, err
@@ -128,13 +140,128 @@ func RunOpAPI(r OpReq) (Outcome, []InputMutation) {
 		phase = "apply"
 		return op.Apply(vin)
 	})
-	var muts []InputMutation
-	for i, t := range ins {
-		if ok, what := before[i].Equal(Fp(t)); !ok {
-			muts = append(muts, InputMutation{Index: i, What: what})
+}
+
+// RunOpsShared executes the requests one after another through the operator API
+// (a fresh operator each). Operands that are the same *ref.T in several requests
+// are converted once: every call receives the same tensor object, as a caller
+// that builds a parameter tensor once and uses it for several calls would pass it.
+func RunOpsShared(reqs []OpReq) []Outcome {
+	cache := map[*ref.T]tensor.Tensor{}
+	outs := make([]Outcome, len(reqs))
+	for j, r := range reqs {
+		ins := make([]tensor.Tensor, len(r.Inputs))
+		for i, in := range r.Inputs {
+			if in == nil {
+				continue
+			}
+			t, ok := cache[in]
+			if !ok {
+				t = ToTensor(in)
+				cache[in] = t
+			}
+			ins[i] = t
 		}
+		outs[j] = runOpOn(r, ins)
 	}
-	return o, muts
+	return outs
+}
+
+// BuildOpsSharedModel renders the requests as one graph with one node per
+// request; operands that are the same *ref.T become one graph input or (when
+// isInit says so) one initializer consumed by several nodes. outNames[j] lists
+// the graph output names of request j.
+func BuildOpsSharedModel(reqs []OpReq, isInit func(*ref.T) bool, raw bool) (g *Graph, feed map[string]*ref.T, outNames [][]string) {
+	g = &Graph{}
+	feed = map[string]*ref.T{}
+	names := map[*ref.T]string{}
+	for j, r := range reqs {
+		node := GNode{Op: r.Op, Attrs: r.Attrs}
+		for _, in := range r.Inputs {
+			if in == nil {
+				node.Inputs = append(node.Inputs, "")
+				continue
+			}
+			name, ok := names[in]
+			if !ok {
+				name = fmt.Sprintf("t%d", len(names))
+				names[in] = name
+				if isInit != nil && isInit(in) {
+					g.Inits = append(g.Inits, GInit{Name: name, T: in, Raw: raw})
+				} else {
+					g.Inputs = append(g.Inputs, GInput{Name: name, DT: in.DT, Dims: FixedDims(in.Shape)})
+					feed[name] = in
+				}
+			}
+			node.Inputs = append(node.Inputs, name)
+		}
+		var outs []string
+		for _, o := range r.outNames() {
+			if o == "" {
+				node.Outputs = append(node.Outputs, "")
+				continue
+			}
+			n := fmt.Sprintf("n%d_%s", j, o)
+			node.Outputs = append(node.Outputs, n)
+			outs = append(outs, n)
+			g.Outputs = append(g.Outputs, GInput{Name: n, NoType: true})
+		}
+		outNames = append(outNames, outs)
+		g.Nodes = append(g.Nodes, node)
+	}
+	return g, feed, outNames
+}
+
+// RunOpsSharedModel runs the graph of BuildOpsSharedModel `runs` times on one
+// loaded model (the same caller tensors every time) and returns, per run, the
+// outcome of each request. A failing Run gives every request of that run the error.
+func RunOpsSharedModel(reqs []OpReq, isInit func(*ref.T) bool, raw bool, runs int) [][]Outcome {
+	g, feed, outNames := BuildOpsSharedModel(reqs, isInit, raw)
+	res := make([][]Outcome, 0, runs)
+	var m *gonnx.Model
+	phase := "load"
+	lo := Capture(&phase, func() ([]tensor.Tensor, error) {
+		var err error
+		m, err = gonnx.NewModelFromBytes(g.Bytes())
+		return nil, err
+	})
+	if lo.Kind != Value {
+		per := make([]Outcome, len(reqs))
+		for j := range per {
+			per[j] = lo
+		}
+		return append(res, per)
+	}
+	in := gonnx.Tensors{}
+	for k, v := range feed {
+		in[k] = ToTensor(v)
+	}
+	for n := 0; n < runs; n++ {
+		var out gonnx.Tensors
+		phase = "run"
+		ro := Capture(&phase, func() ([]tensor.Tensor, error) {
+			var err error
+			out, err = m.Run(in)
+			return nil, err
+		})
+		per := make([]Outcome, len(reqs))
+		for j := range reqs {
+			if ro.Kind != Value {
+				per[j] = ro
+				continue
+			}
+			names := outNames[j]
+			per[j] = Capture(&phase, func() ([]tensor.Tensor, error) {
+				ts := make([]tensor.Tensor, len(names))
+				for i, nm := range names {
+					ts[i] = out[nm]
+				}
+				return ts, nil
+			})
+		}
+		res = append(res, per)
+	}
+	return res
 }
 
 // ModelOpts selects how a single-node model is laid out.
